@@ -97,12 +97,13 @@ pub fn run_jobs(jobs: Vec<Value>, cfg: &PoolCfg) -> Vec<Value> {
     if !late.is_empty() {
         let again = PoolCfg { workers: 3, batch: 1, timeout: (cfg.timeout * 6).max(Duration::from_secs(120)), envs: cfg.envs.clone() };
         // the first six are confirmed three at a time on an otherwise idle pool; when every one of them still does not
-        // finish, the machine was not the reason and the others stand as they are (code under test that hangs on one
+        // finish (or dies), the machine was not the reason and the others stand as they are (code under test that hangs on one
         // input usually hangs on many: confirming hundreds of them one by one would take hours); when one of them does
         // finish, the limit was too tight for this machine and all the others are confirmed as well
         let first: Vec<usize> = late.iter().take(6).cloned().collect();
         let rs = run_jobs_once(first.iter().map(|i| jobs[*i].clone()).collect(), &again);
-        let all_still_late = rs.iter().all(|r| r.get("timeout").is_some());
+        // (a job that ends in an abort or a panic within the long limit is no evidence of a loaded machine either)
+        let all_still_late = rs.iter().all(|r| r.get("timeout").is_some() || r.get("abort").is_some() || r.get("panic").is_some());
         for (i, r) in first.iter().zip(rs.into_iter()) {
             results[*i] = r;
         }
